@@ -106,6 +106,9 @@ func c10IdleCases(tier string, seed int64) []c10IdleCase {
 		}
 		// untouched keys that live in an older table of the fragment than >= 19 keys which are kept alive by reads
 		add(c10IdleCase{N: 1, P: 1, GlobalWindow: w, DMaps: []c10IdleDMap{{Source: "global", Window: w}}, NT: 30, NU: 30, Touch: "get", Layout: "cold-in-older-table", TableSize: 4096, ValLen: 64})
+		// keys that are kept alive by reads only and live in an older (read-only) table of the fragment
+		add(c10IdleCase{N: 1, P: 1, GlobalWindow: w, DMaps: []c10IdleDMap{{Source: "global", Window: w}}, NT: 20, NU: 10, Touch: "get", Layout: "hot-in-older-table", TableSize: 4096, ValLen: 64})
+		add(c10IdleCase{N: 2, R: 2, P: 3, DMaps: []c10IdleDMap{{Source: "custom", Window: w}}, NT: 30, NU: 10, Touch: "get", Layout: "hot-in-older-table", TableSize: 2048, ValLen: 64})
 	}
 	return res
 }
@@ -356,6 +359,22 @@ func c10IdleTrack(c *cluster.Cluster, cs c10IdleCase, dm c10IdleDMap, hb *c10Hea
 		for _, k := range ts {
 			put(k, 0)
 		}
+	} else if cs.Layout == "hot-in-older-table" {
+		// fill: the touched keys, then untouched keys up to well beyond the end of the table: the keys that are kept
+		// alive (by reads only) live in a table that is no longer written to
+		for _, k := range ts {
+			put(k, 0)
+		}
+		entry := 5 + cs.ValLen + 29
+		perTable := int(cs.TableSize) / entry
+		for _, k := range us {
+			put(k, 0)
+		}
+		for i := cs.NU; i < cs.NU+perTable+4; i++ {
+			k := &c10IdleKey{key: fmt.Sprintf("u%04d", i)}
+			us = append(us, k)
+			put(k, 0)
+		}
 	} else {
 		all := append(append([]*c10IdleKey{}, us...), ts...)
 		rng.Shuffle(len(all), func(i, j int) { all[i], all[j] = all[j], all[i] })
@@ -371,7 +390,7 @@ func c10IdleTrack(c *cluster.Cluster, cs c10IdleCase, dm c10IdleDMap, hb *c10Hea
 	}
 	deadline := lastUPut.Add(w + c10IdleBound)
 	minWatch := start.Add(w*3 + w/4)
-	if cs.Layout == "cold-in-older-table" {
+	if cs.Layout != "" && cs.Layout != "flat" {
 		// record the table layout as evidence that the scenario is what it claims to be
 		for _, m := range c.Live() {
 			_, tables, ok := m.V.DMap.VerifStats(partitions.PRIMARY, 0, dm.Name)
